@@ -12,9 +12,14 @@ def run(chk, replay=None):
         "field updates inside a critical section are folded into its Rel step",
         "client discipline (a callback id is registered at most once, destroyed at most once and only after its "
         "constructor returned) is part of the model: violating instructions block",
-        "modelled not verified: fused_stop_source / inplace_stop_token_adapter are compositions (a callback whose "
-        "body is RequestStop on another source); only a single source is modelled"]
+        "fused_stop_source / inplace_stop_token_adapter: not a separate model; each of the two sources is compared "
+        "with the single-source model on its own projection (upstream: the forwarding callback is a callback with "
+        "an empty body; inner: each forwarded request_stop is an IReqStop of the thread that ran the forwarder, "
+        "resolved after the fact from the recorded run); the composition argument itself is informal"]
     chk.cov["rule"] = ("K1: all schedules of each program with <= bound preemptions plus seeded random ones; "
                        "distinct = distinct projected traces; non-trivial = at least two context switches among owned events")
     chk.prove()
     k1.run_unit(chk, stop_source.StopSource())
+    for mode in ("fused", "adapter"):
+        k1.run_unit(chk, stop_source.TwoSourceInner(mode))
+        k1.run_unit(chk, stop_source.TwoSourceUp(mode))
